@@ -452,7 +452,13 @@ class Interp:
                     return SInt(q)
                 return SInt(x - y * q)
             if isinstance(op, ast.Pow):
+                if self.ex.pow_hook is not None:
+                    return self.ex.pow_hook(self, a, b)
                 raise Undecided("symbolic ** (resource precondition applies)")
+            if isinstance(op, ast.Div):
+                if self.decide(y == 0):
+                    self.throw("ZeroDivisionError", "division by zero")
+                return SReal(z3.ToReal(x) / z3.ToReal(y))
             raise Undecided(f"int operator {op.__class__.__name__}")
         if ka in num | {"float"} and kb in num | {"float"}:
             x, y = self._real_term(a), self._real_term(b)
@@ -462,6 +468,12 @@ class Interp:
                 return SReal(x - y)
             if isinstance(op, ast.Mult):
                 return SReal(x * y)
+            if isinstance(op, ast.Div):
+                if self.decide(y == 0):
+                    self.throw("ZeroDivisionError", "float division by zero")
+                return SReal(x / y)
+            if isinstance(op, ast.Pow) and self.ex.pow_hook is not None:
+                return self.ex.pow_hook(self, a, b)
             raise Undecided(f"float operator {op.__class__.__name__}")
         if ka == "str" and kb == "str":
             if isinstance(op, ast.Add):
@@ -1831,6 +1843,7 @@ class Explorer:
         self.models = {}
         self.methods = {}
         self.contracts = {}
+        self.pow_hook = None
         self.typing = None
         self.call_pre = {}
         self.inline = set()
